@@ -248,3 +248,33 @@ Theorem c06_mask_window_none :
       first_real_pulse T c = None.
 Proof. exact mask_window_none. Qed.
 Print Assumptions c06_mask_window_none.
+
+(** SequenceSamples.extend_duration: every channel is kept, in order, each one
+    extended by its own extend_duration (so c06_extend_only_pads applies to
+    each); extending to the duration a channel already has changes nothing;
+    it is refused exactly when some channel is longer *)
+Theorem c06_extend_all_channelwise :
+  forall (T : Type) (zero : T) (css css' : list (csamples T)) (n : Z),
+    extend_all T zero css n = Some css' ->
+    Forall2 (fun cs cs' => extend T zero cs n = Some cs') css css'.
+Proof. exact extend_all_spec. Qed.
+Print Assumptions c06_extend_all_channelwise.
+
+Theorem c06_extend_all_keeps_every_channel :
+  forall (T : Type) (zero : T) (css css' : list (csamples T)) (n : Z),
+    extend_all T zero css n = Some css' -> length css' = length css.
+Proof. exact extend_all_keeps_every_channel. Qed.
+Print Assumptions c06_extend_all_keeps_every_channel.
+
+Theorem c06_extend_to_own_duration_is_identity :
+  forall (T : Type) (zero : T) (cs : csamples T),
+    extend T zero cs (lenz T (cs_amp T cs)) = Some cs.
+Proof. exact extend_same. Qed.
+Print Assumptions c06_extend_to_own_duration_is_identity.
+
+Theorem c06_extend_all_fails_iff :
+  forall (T : Type) (zero : T) (css : list (csamples T)) (n : Z),
+    extend_all T zero css n = None <->
+    (exists cs : csamples T, In cs css /\ n < lenz T (cs_amp T cs)).
+Proof. exact extend_all_fails_iff. Qed.
+Print Assumptions c06_extend_all_fails_iff.
